@@ -188,7 +188,7 @@ func (t *c01Template) instantiate(seed int64) (*menv.Env, error) {
 
 type c01Op struct {
 	name string
-	kind string // swap | melt | check | poll | premelt
+	kind string // swap | melt | remelt | check | check2 | poll | premelt
 	melt int    // which melt quote
 }
 
@@ -224,6 +224,12 @@ func c01RunSchedule(r *core.Run, t *c01Template, ops []c01Op, plan lnmodel.PayPl
 			env.World.Resolve("m0", t.meltH[op.melt], plan.Truth != lnmodel.Failed)
 		}
 	}
+	for _, op := range ops {
+		if op.kind == "remelt" {
+			// the retry of the quote: this time the payment stays in flight
+			env.Node.PlanPay(t.meltH[op.melt], lnmodel.PayPlan{Answer: lnmodel.APending, Truth: lnmodel.InFlight})
+		}
+	}
 	sc := sched.New(prefix)
 	sc.Pick = pickFn
 	sc.ParkAfter = true
@@ -248,7 +254,7 @@ func c01RunSchedule(r *core.Run, t *c01Template, ops []c01Op, plan lnmodel.PayPl
 					out.results[i] = "swap:" + err.Error()
 				}
 				mu.Unlock()
-			case "melt":
+			case "melt", "remelt":
 				q, err := env.Melt(t.meltQ[op.melt], cashu.Proofs{t.coin})
 				mu.Lock()
 				if err == nil {
@@ -262,8 +268,12 @@ func c01RunSchedule(r *core.Run, t *c01Template, ops []c01Op, plan lnmodel.PayPl
 				mu.Lock()
 				out.results[i] = fmt.Sprintf("poll:%v:%v", q.State, err)
 				mu.Unlock()
-			case "check":
+			case "check", "check2":
 				st, err := env.CheckState([]string{refcrypto.YHex(t.coin.Secret)})
+				if op.kind == "check2" {
+					// a client that asks twice in a row
+					st, err = env.CheckState([]string{refcrypto.YHex(t.coin.Secret)})
+				}
 				mu.Lock()
 				if err == nil && len(st) == 1 {
 					out.results[i] = "check:" + st[0].State.String()
@@ -375,7 +385,11 @@ func c01Pairs(r *core.Run) {
 		scen{name: "swap|poll-settles-pending-melt", ops: []c01Op{{"P", "premelt", 0}, {"A", "swap", 0}, {"B", "poll", 0}}, plan: settled},
 		scen{name: "swap|checkstate-settles-pending-melt", ops: []c01Op{{"P", "premelt", 0}, {"A", "swap", 0}, {"B", "check", 0}}, plan: settled},
 		// a state check arrives while the melt request is still between locking the proofs and paying, then a swap
-		scen{name: "swap|melt|checkstate", ops: []c01Op{{"A", "swap", 0}, {"B", "melt", 0}, {"C", "check", 0}}, plan: succ, bound: [2]int{1, 2}},
+		scen{name: "swap|melt|checkstate", ops: []c01Op{{"A", "swap", 0}, {"B", "melt", 0}, {"C", "check2", 0}}, plan: succ, bound: [2]int{1, 2}},
+		// a pending melt has failed at the node; a poll and a state check discover it while the client
+		// already retries the melt (payment in flight again) and somebody swaps the proof
+		scen{name: "swap|remelt|poll|checkstate-after-failed-pending-melt", ops: []c01Op{{"P", "premelt", 0}, {"A", "swap", 0}, {"B", "remelt", 0}, {"C", "poll", 0}, {"D", "check", 0}},
+			plan: lnmodel.PayPlan{Answer: lnmodel.APending, Truth: lnmodel.Failed}, bound: [2]int{1, 2}},
 	)
 	if !quick(r) {
 		scens = append(scens,
